@@ -110,6 +110,20 @@ pub fn run(prop: &str, seed: u64, n: usize, outdir: &str) -> std::io::Result<()>
                 a == toks(&f)
             }));
             flags.push((format!("c04_short_sentence_after_a_giant_one_{}", tag), after.unwrap_or(false) as u8));
+            // ... and the giant sentence on a worker that has already answered a short one (and an abandoned reset)
+            let before = std::panic::catch_unwind(std::panic::AssertUnwindSafe(|| {
+                let mut w = t.new_worker();
+                w.reset_sentence(&base_short);
+                w.tokenize();
+                w.reset_sentence(&sentence);
+                w.tokenize();
+                let a = toks(&w) == tk;
+                w.reset_sentence(&base_short);
+                w.reset_sentence(&sentence);
+                w.tokenize();
+                a && toks(&w) == tk
+            }));
+            flags.push((format!("c04_giant_sentence_after_a_short_one_{}", tag), before.unwrap_or(false) as u8));
         }
         // C12: a run of more than 65535 spaces in leading / inner / trailing position, and spaces only
         if gd.space_clean {
